@@ -183,7 +183,7 @@ func c15RunLarge(c *core.Ctx) {
 	}
 	s1, _ := Take(src)
 	d1, _ := Take(dst)
-	if d := Diff(s0, s1, DiffOpts{}); d != "" {
+	if d := Diff(s0, s1, DiffOpts{Raw: true}); d != "" {
 		c.Violatef("source-changed", desc, "source changed: %s", d)
 		return
 	}
@@ -327,7 +327,7 @@ func c15Run(c *core.Ctx, idx int) {
 	c.Count("form." + k.Form)
 	s1, _ := Take(src)
 	d1, _ := Take(dst)
-	if d := Diff(s0, s1, DiffOpts{}); d != "" {
+	if d := Diff(s0, s1, DiffOpts{Raw: true}); d != "" {
 		c.Violatef("source-changed", k, "source changed by Transfer: %s", d)
 		return
 	}
